@@ -97,6 +97,10 @@ macro_rules! dispatch {
                 let $p = &props::parsers::MiriParse;
                 $body
             }
+            "C14s" => {
+                let $p = &props::stale::C14Stale;
+                $body
+            }
             other => {
                 eprintln!("unknown component {other}");
                 exit(2)
@@ -117,7 +121,7 @@ fn components(property: &str) -> Vec<&'static str> {
         "C11" => vec!["C11"],
         "C13" => vec!["C13"],
         "C16" => vec!["C16"],
-        "C14" => vec!["C14r", "C14w"],
+        "C14" => vec!["C14r", "C14w", "C14s"],
         _ => vec![],
     }
 }
@@ -912,7 +916,7 @@ fn hang_check(comp: &str) -> Option<&'static str> {
         "C10" => Some("C10.hang"),
         "C11" => Some("C11.hang"),
         "C13" => Some("C13.hang"),
-        "C14r" | "C14w" => Some("C14.hang"),
+        "C14r" | "C14w" | "C14s" => Some("C14.hang"),
         "C16" => Some("C16.hang"),
         _ => None,
     }
@@ -923,7 +927,7 @@ fn hang_check(comp: &str) -> Option<&'static str> {
 fn cmd_selftest() -> i32 {
     let seed = seed_from_env();
     let mut bad = 0;
-    for comp in ["C01", "C02", "C04", "C08", "C09p", "C09r", "C10", "C11", "C13", "C14r", "C14w", "C16"] {
+    for comp in ["C01", "C02", "C04", "C08", "C09p", "C09r", "C10", "C11", "C13", "C14r", "C14w", "C14s", "C16"] {
         let runs = if comp == "C10" { 48 } else if comp == "C04" { 2_000 } else { 40_000 };
         let mut res = vec![];
         for threads in [1usize, 16, 5] {
